@@ -254,6 +254,9 @@ def c10_programs(rng, n):
                              ("mc_queue", ["a", "b", "c"], True, "q"), ("mc_drain", "q")])],
                     {1: [("send", "channel", 201), ("wait_gate", "go"), ("send", "channel", 202)], 2: [("raise",)],
                      3: [("wait_gate", "go"), ("send", "channel", 221)]}))
+    # a dropped callback channel racing with the end of the remote code
+    out.append(prog([("u1", [("remote_exec", "c", 1), ("setcallback", "c", True), ("drop", "c"), ("remote_exec", "e", 2), ("receive_all", "e")])],
+                    {1: [("send", "channel", 201)], 2: [("send", "channel", 221)]}))
     # the peer closed first, then setcallback (delivers the endmarker itself), then the gateway ends: still exactly one endmarker
     out.append(prog([("u1", [("remote_exec", "c", 1), ("waitclose", "c"), ("setcallback", "c", True), ("exit",), ("join",)])],
                     {1: [("send", "channel", 201), ("send", "channel", 202)]}))
@@ -310,6 +313,22 @@ def c18_programs(rng, n):
     out.append(prog([("u1", [("tablesize",), ("remote_exec", "c", 1), ("newchannel", "d"), ("setcallback", "d", True), ("sendchan", "c", "d"), ("waitclose", "c"),
                              ("close", "d"), ("drop", "d"), ("drop", "c"), ("tablesize",)])],
                     {1: [("recvchan", "channel", "x"), ("send", "x", 201), ("drop", "x")]}))
+    # a callback channel whose object was dropped, closed by the peer: both tables forget it
+    out.append(prog([("u1", [("tablesize",), ("remote_exec", "c", 1), ("setcallback", "c", True), ("drop", "c"), ("open_gate", "go"),
+                             ("remote_exec", "e", 2), ("receive_all", "e"), ("drop", "e"), ("tablesize_settled",)])],
+                    {1: [("wait_gate", "go"), ("send", "channel", 201)], 2: [("send", "channel", 221)]}))
+    # the same racing with the end of the remote code (its CHANNEL_CLOSE may be sent before our LAST_MESSAGE arrives there)
+    out.append(prog([("u1", [("tablesize",), ("remote_exec", "c", 1), ("setcallback", "c", True), ("drop", "c"),
+                             ("remote_exec", "e", 2), ("receive_all", "e"), ("drop", "e"), ("tablesize_settled",)])],
+                    {1: [("send", "channel", 201)], 2: [("send", "channel", 221)]}))
+    # setcallback on a channel with queued items while the channel gets closed during the drain (by the callback itself / by another thread)
+    out.append(prog([("u1", [("tablesize",), ("remote_exec", "c", 1), ("wait_gate", "sent"), ("setcallback", "c", False, 202, "closeself"),
+                             ("drop", "c"), ("open_gate", "fin"), ("remote_exec", "e", 2), ("receive_all", "e"), ("drop", "e"), ("tablesize_settled",)])],
+                    {1: [("send", "channel", 201), ("send", "channel", 202), ("open_gate", "sent"), ("wait_gate", "fin")], 2: [("send", "channel", 221)]}))
+    out.append(prog([("u1", [("tablesize",), ("remote_exec", "c", 1), ("wait_gate", "sent"), ("open_gate", "race"), ("setcallback", "c", False),
+                             ("wait_gate", "closed"), ("drop", "c"), ("open_gate", "fin"), ("remote_exec", "e", 2), ("receive_all", "e"), ("drop", "e"), ("tablesize_settled",)]),
+                     ("u2", [("wait_gate", "race"), ("close", "c"), ("open_gate", "closed")])],
+                    {1: [("send", "channel", 201), ("send", "channel", 202), ("open_gate", "sent"), ("wait_gate", "fin")], 2: [("send", "channel", 221)]}))
     for _ in range(n):
         nt = rng.randint(2, 3)
         threads = []
